@@ -27,6 +27,12 @@ type Op struct {
 	// Fix optionally normalises a drawn secret into the operation's domain
 	// (e.g. clear bit 255, make non-zero).
 	Fix func(sec []byte)
+	// Pair optionally draws a STRUCTURED pair of secrets for operations whose
+	// interesting secrets are not byte patterns (values at the edge of the
+	// canonical range, two keys that agree in one half and differ in the
+	// other, ...).  Used for two thirds of the cases of such an operation; the
+	// generic byte-pattern pairs (+Fix) make up the rest.
+	Pair func(t *rapid.T) (s1, s2 []byte, label string)
 }
 
 type Case struct {
@@ -135,7 +141,18 @@ func Gen(ops map[string]Op) func(*rapid.T) Case {
 		default:
 			pub = h.UniformBytes(t, op.PubLen, "pub")
 		}
-		s1, s2, pair := secretPair(t, op.SecretLen)
+		var (
+			s1, s2 []byte
+			pair   string
+		)
+		if op.Pair != nil && rapid.IntRange(0, 2).Draw(t, "structured") != 0 {
+			s1, s2, pair = op.Pair(t)
+			if len(s1) != op.SecretLen || len(s2) != op.SecretLen {
+				panic("zzcth: Pair returned a secret of the wrong length for " + name)
+			}
+		} else {
+			s1, s2, pair = secretPair(t, op.SecretLen)
+		}
 		if rapid.Bool().Draw(t, "swap") {
 			s1, s2 = s2, s1
 		}
